@@ -185,6 +185,17 @@ def _int_b(ctx, f, e, branch, depth=0):
         if d is not None:
             return _int_b(ctx, f, d, branch, depth + 1)
         return {"$" + e.id: 1}
+    if isinstance(e, ast.IfExp):
+        tt = text(e.test).replace(" ", "")
+        for pol_, pre in ((True, ""), (False, "not")):
+            for t0 in ("%sin%s.line_order" % (f.params[1], f.params[0]),
+                       "%sin%s.line_order.keys()" % (f.params[1], f.params[0])):
+                if tt == pre + t0 or tt == pre + "(" + t0 + ")":
+                    pick = e.body if (branch == pol_) else e.orelse
+                    return _int_b(ctx, f, pick, branch, depth + 1)
+        t1 = text(e.test).replace(" ", "")
+        if t1 == "%snotin%s.line_order" % (f.params[1], f.params[0]):
+            return _int_b(ctx, f, e.orelse if branch else e.body, branch, depth + 1)
     if isinstance(e, ast.Call) and hasattr(e, "_parent"):
         # a helper that makes the same two-way choice: read it under this branch
         from .. import symcase
